@@ -836,7 +836,8 @@ fn gen_n(rng: &mut Rng, len: usize, stride: usize) -> usize {
 }
 
 pub fn gen_trace(rng: &mut Rng, prop: &str, thorough: bool) -> CursorTrace {
-    let max_dim = if thorough { 12 } else { 8 };
+    // now and then a much larger shape
+    let max_dim = if rng.chance(1, 64) { 40 } else if thorough { 12 } else { 8 };
     let (cols, rows) = match rng.below(16) {
         0 => (0, 0),
         1 => (1, rng.range(1, max_dim)),
